@@ -371,7 +371,7 @@ def gen_cases(tier, seed):
     r3 = random.Random(seed + 5)
     for c in cases:
         if c.get('family') == 'e2e' and r3.random() < 0.35:
-            c['prior_use'] = r3.choice(['legacy', 'manager'])
+            c['prior_use'] = r3.choice(['legacy', 'manager', 'overlap'])
 
     return cases
 
